@@ -1674,6 +1674,9 @@ mod api {
                                         else if reported < 3 { reported += 1; o.fail(json!({"clause": "C02 C16 every index below the length can be read as pre-edit text (ANSI on)", "history": s.history(), "candidate": cand, "observed": "panic"})); }
                                     }
                                     Ok(pe) => {
+                                        // the encoder of the dependency, called directly on the candidate (not through riti)
+                                        let want = std::panic::catch_unwind(|| poriborton::bijoy2000::unicode_to_bijoy(&cand));
+                                        if let Ok(w) = want { if w != pe && reported < 3 { reported += 1; o.fail(json!({"clause": "C16 pre-edit == Bijoy encoding of the candidate", "history": s.history(), "candidate": cand, "observed": pe, "expected": w})); } }
                                         if pe.chars().any(|c| ('\u{0980}'..='\u{09FF}').contains(&c)) && reported < 3 { reported += 1; o.fail(json!({"clause": "C16 no Bengali-block code point in ANSI pre-edit text", "history": s.history(), "candidate": cand, "observed": pe})); }
                                     }
                                 }
@@ -1685,6 +1688,56 @@ mod api {
                 }
             }
             o.domain = format!("{}; key sweep with ANSI on (read-outs of texts containing U+09C4 matched the recorded known finding {} times)", o.domain, known);
+        }
+        // joiner sequences (ZWJ / ZWNJ / hasanta / ya-phala around ক র য), where the Bijoy encoding depends on the joiner: every key
+        // string of length <= 3 over eight synthetic-layout keys (+ the same followed by া), list and single-string mode, and the
+        // phonetic spellings of র‍্য; the pre-edit text of every candidate is the dependency's encoding of exactly that candidate
+        {
+            let keys = ['t', 'u', 's', '`', '\\', 'w', 'y', 'p'];
+            let mut strs: Vec<String> = Vec::new();
+            for a in keys { strs.push(a.to_string()); for b in keys { strs.push(format!("{}{}", a, b)); for c in keys { strs.push(format!("{}{}{}", a, b, c)); strs.push(format!("{}{}{}p", a, b, c)); } } }
+            let mut reported = 0;
+            let mut with_joiner = 0u64;
+            for list in [false, true] {
+                let mut cfgv = fixed_cfg(json!({"fixed_suggestion": list, "ansi": true}));
+                cfgv["layout"] = json!(crate::verif_driver::synthetic_layout());
+                let mut s = Sess::new(cfgv);
+                for k in strs.iter() {
+                    o.cases += 1;
+                    let sg = match s.typ(k) { Some(x) => x, None => continue };
+                    let n = if sg.is_empty() { 0 } else if sg.is_lonely() { 1 } else { sg.len() };
+                    for i in 0..n {
+                        let cand = if sg.is_lonely() { sg.get_lonely_suggestion().to_string() } else { sg.get_suggestions()[i].clone() };
+                        if cand.contains('\u{09C4}') { continue; }
+                        let want = match std::panic::catch_unwind(|| poriborton::bijoy2000::unicode_to_bijoy(&cand)) { Ok(w) => w, Err(_) => continue };
+                        if cand.contains('\u{200D}') || cand.contains('\u{200C}') { with_joiner += 1; }
+                        match std::panic::catch_unwind(std::panic::AssertUnwindSafe(|| sg.get_pre_edit_text(i))) {
+                            Ok(pe) => if pe != want && reported < 4 { reported += 1; o.fail(json!({"clause": "C16 pre-edit == Bijoy encoding of the candidate (joiner sequences)", "history": s.history(), "candidate": cand, "observed": pe, "expected": want})); },
+                            Err(_) => if reported < 4 { reported += 1; o.fail(json!({"clause": "C02 C16 every index below the length can be read as pre-edit text (ANSI on, joiner sequences)", "history": s.history(), "candidate": cand, "observed": "panic"})); },
+                        }
+                    }
+                    s.finish();
+                    o.nontrivial += 1;
+                }
+            }
+            for sugg in [false, true] { for w in ["rZab", "ryab", "r`yab", "rZa", "kZ", "k`"] {
+                o.cases += 1;
+                let mut s = Sess::new(phon_cfg(json!({"ansi": true, "phonetic_suggestion": sugg})));
+                let sg = match s.typ(w) { Some(x) => x, None => continue };
+                let n = if sg.is_empty() { 0 } else if sg.is_lonely() { 1 } else { sg.len() };
+                for i in 0..n {
+                    let cand = if sg.is_lonely() { sg.get_lonely_suggestion().to_string() } else { sg.get_suggestions()[i].clone() };
+                    let want = match std::panic::catch_unwind(|| poriborton::bijoy2000::unicode_to_bijoy(&cand)) { Ok(w) => w, Err(_) => continue };
+                    if cand.contains('\u{200D}') || cand.contains('\u{200C}') { with_joiner += 1; }
+                    match std::panic::catch_unwind(std::panic::AssertUnwindSafe(|| sg.get_pre_edit_text(i))) {
+                        Ok(pe) => if pe != want { o.fail(json!({"clause": "C16 pre-edit == Bijoy encoding of the candidate (joiner sequences, phonetic)", "history": s.history(), "candidate": cand, "observed": pe, "expected": want})); },
+                        Err(_) => o.fail(json!({"clause": "C02 C16 every index below the length can be read as pre-edit text (ANSI on, joiner sequences, phonetic)", "history": s.history(), "candidate": cand, "observed": "panic"})),
+                    }
+                }
+                o.nontrivial += 1;
+            } }
+            o.sample(json!({"joiner_sequences": strs.len(), "candidates_with_a_joiner_compared": with_joiner}));
+            if with_joiner == 0 { o.fail(json!({"clause": "C16 (machinery) no candidate with a joiner was produced by the joiner corpus", "history": {}})); }
         }
         // a choice learned outside ANSI mode (an emoji, the raw English text) and ANSI switched on afterwards -- on the live
         // context and in a new one over the same user files: nothing that cannot be encoded is offered
